@@ -11,7 +11,7 @@ A zero test is exact on R, S, kS; `== 1` and `a == b` only on R.
 """
 import ast
 
-from .model import norm_text
+from .model import canon_text, norm_text
 
 R, S, KS, W = "R", "S", "kS", "W"
 
@@ -104,6 +104,12 @@ class ModP(object):
                 env[pn] = Val(W)     # public entry: unknown integer (e.g. scalars)
         self.cur = f
         self.rets = []
+        # local aliases of methods of the class:  name = self.<method>
+        self.aliases = {}
+        for n in ast.walk(f.node):
+            if isinstance(n, ast.Assign) and len(n.targets) == 1 and isinstance(n.targets[0], ast.Name) and isinstance(n.value, ast.Attribute) \
+                    and isinstance(n.value.value, ast.Name) and n.value.value.id == "self" and n.value.attr in self.c.methods:
+                self.aliases[n.targets[0].id] = n.value.attr
         self.exec_block(f.node.body, env, [])
         if self.rets:
             cur = self.returns.get(mname)
@@ -304,8 +310,8 @@ class ModP(object):
             target = None
             if isinstance(fn, ast.Attribute) and isinstance(fn.value, ast.Name) and fn.value.id == "self" and name in self.c.methods:
                 target = name
-            elif isinstance(fn, ast.Name) and fn.id.startswith("_") and fn.id in self.c.methods:
-                target = fn.id
+            elif isinstance(fn, ast.Name) and fn.id in getattr(self, "aliases", {}):
+                target = self.aliases[fn.id]
             if target:
                 m = self.c.methods[target]
                 params = [p for p in m.params if p not in ("self", "cls")]
@@ -379,6 +385,7 @@ class ModP(object):
             exact = all(o.cls == R for o in ops)
         roles = frozenset().union(*[o.roles for o in ops])
         tt = Test(self.cur, node, kind, ops, exact, roles, norm_text(node))
+        tt.ctext = canon_text(self.cur.node, node)
         tt.stmt = stmt
         return tt
 
